@@ -71,11 +71,15 @@ def reprStr (s : List Int) : String :=
   let delim : Nat := if s.any (· == 39) then 34 else 39
   String.singleton (Char.ofNat delim) ++ String.join (s.map (escapeRune delim)) ++ String.singleton (Char.ofNat delim)
 
+/-- `identRE` -/
+def isIdent (n : String) : Bool :=
+  match n.toList with
+  | c :: r => identStart c && r.all identRest
+  | [] => false
+
 /-- `TupleNameRepr` -/
 def nameRepr (n : String) : String :=
-  match n.toList with
-  | c :: r => if identStart c && r.all identRest then n else reprStr (n.toList.map (fun c => (c.toNat : Int)))
-  | [] => reprStr []
+  if isIdent n then n else reprStr (n.toList.map (fun c => (c.toNat : Int)))
 
 /-- `reprOffset` -/
 def offRepr (off : Int) : String := if off = 0 then "" else toString off ++ "\\"
@@ -107,8 +111,8 @@ def reprStep (rec : Rep → String) : Rep → String
   | .true_ => "true"
   | .generic xs => "{" ++ joinSep ((orderedValues xs).map rec) ++ "}"       -- reprOrderableSet
   | .str s off => offRepr off ++ reprStr s                                   -- reprString
-  | .bytes b _ =>                                                            -- Bytes.Format (no offset)
-    "<<" ++ (if b.all renderableByte then reprStr b else joinSep (b.map toString)) ++ ">>"
+  | .bytes b off =>                                                          -- Bytes.Format (offset printed since 7a4b0ca)
+    offRepr off ++ "<<" ++ (if b.all renderableByte then reprStr b else joinSep (b.map toString)) ++ ">>"
   | .array vs off =>
     offRepr off ++ "[" ++ joinSep (vs.map (optText rec)) ++ "]"
   | .dict m =>
@@ -119,9 +123,13 @@ def reprStep (rec : Rep → String) : Rep → String
       | _ => "")) ++ "}"
   | .relation ns rows =>
     let sns := isort strLt ns
-    let proj (row : List Rep) : List Rep := sns.map (fun n => lookupAttr n (zipNames ns row))
-    "{|" ++ joinSep sns ++ "| " ++
-      joinSep ((isort cellsLt (rows.map proj)).map (fun cells => "(" ++ joinSep (cells.map rec) ++ ")")) ++ "}"
+    if sns.all isIdent then
+      let proj (row : List Rep) : List Rep := sns.map (fun n => lookupAttr n (zipNames ns row))
+      "{|" ++ joinSep sns ++ "| " ++
+        joinSep ((isort cellsLt (rows.map proj)).map (fun cells => "(" ++ joinSep (cells.map rec) ++ ")")) ++ "}"
+    else
+      -- `{|...| ...}` only takes identifiers as names: `reprOrderableSet`, a plain set of tuples (72794de)
+      "{" ++ joinSep ((orderedValues (rows.map (rowTuple ns))).map rec) ++ "}"
   | .union bs => "{" ++ joinSep ((orderedValues (bs.flatMap members1)).map rec) ++ "}"   -- UnionSet.Format
 
 def reprN : Nat → Rep → String
